@@ -127,7 +127,9 @@ func (g *Gen) Setup() error {
 		sessDelay = []int64{1, 5e9, 30e9}[g.pick(3)]
 	}
 	subDelay := sessDelay + []int64{0, 1, 60e9, 7200e9}[g.pick(4)]
-	shares := []string{"0", dec18(0.1), dec18(0.25), "333333333333333333", "1000000000000000000", "1"}
+	// half of the choices make share x price land on exactly .5 for common prices (half-even rounding of
+	// the fee, and of anything rounded independently of it)
+	shares := []string{"0", dec18(0.1), dec18(0.25), "333333333333333333", "1000000000000000000", "1", dec18(0.5), dec18(0.5), dec18(0.1), dec18(0.25), dec18(0.05), "500000000000000001"}
 	minGB, maxGB := g.coinsStr(g.subset(0), 1, 5), ""
 	_ = maxGB
 	bound := func() (string, string) {
@@ -1056,7 +1058,7 @@ func (g *Gen) GovOp() error {
 	case 6:
 		return g.line("gov space=node key=StakingShare dec=%s", []string{"0", dec18(0.1), dec18(0.5), "1000000000000000000", "1000000000000000001", "-1"}[g.pick(6)])
 	case 7:
-		return g.line("gov space=provider key=StakingShare dec=%s", []string{"0", dec18(0.2), "999999999999999999", "1000000000000000000"}[g.pick(4)])
+		return g.line("gov space=provider key=StakingShare dec=%s", []string{"0", dec18(0.2), "999999999999999999", "1000000000000000000", dec18(0.5), dec18(0.1), dec18(0.25)}[g.pick(7)])
 	case 8:
 		// raising the subscription delay keeps the monotone coupling H_delay; lowering does not
 		nd := subD + []int64{1, 60e9, 3600e9}[g.pick(3)]
